@@ -296,8 +296,34 @@ func Ite(c, a, b *Term) *Term {
 	}
 	return App("ite", a.S, c, a, b)
 }
+// genericElem: element sort of "(Array K V)" for any key sort.
+func genericElem(s Sort) (Sort, bool) {
+	str := string(s)
+	if !strings.HasPrefix(str, "(Array ") {
+		return "", false
+	}
+	body := str[len("(Array ") : len(str)-1]
+	depth := 0
+	for i, c := range body {
+		switch c {
+		case '(':
+			depth++
+		case ')':
+			depth--
+		case ' ':
+			if depth == 0 {
+				return Sort(body[i+1:]), true
+			}
+		}
+	}
+	return "", false
+}
+
 func Select(a, i *Term) *Term {
 	if !a.S.IsArr() {
+		if es, ok := genericElem(a.S); ok {
+			return App("select", es, a, i)
+		}
 		panic("Select on non-array: " + a.String())
 	}
 	// read-over-write with syntactically decidable indices
@@ -360,6 +386,19 @@ func Forall(bound []*Term, body *Term, pats ...*Term) *Term {
 	if len(bound) == 0 {
 		return body
 	}
+	if len(pats) == 0 {
+		if t, ok := expandSmallRange(bound, body, true); ok {
+			return t
+		}
+		vs := reindexVariants(bound, body)
+		if len(vs) > 1 {
+			var cs []*Term
+			for _, v := range vs {
+				cs = append(cs, &Term{Op: "forall", S: SBool, Bound: bound, Args: []*Term{v}})
+			}
+			return And(cs...)
+		}
+	}
 	return &Term{Op: "forall", S: SBool, Bound: bound, Args: []*Term{body}, Pat: pats}
 }
 func Exists(bound []*Term, body *Term) *Term {
@@ -368,6 +407,12 @@ func Exists(bound []*Term, body *Term) *Term {
 	}
 	if len(bound) == 0 {
 		return body
+	}
+	if t, ok := expandSmallRange(bound, body, false); ok {
+		return t
+	}
+	if vs := reindexVariants(bound, body); len(vs) > 1 {
+		body = vs[1]
 	}
 	return &Term{Op: "exists", S: SBool, Bound: bound, Args: []*Term{body}}
 }
@@ -606,4 +651,181 @@ func sortedSyms(m map[string]symInfo) []symInfo {
 		out = append(out, m[k])
 	}
 	return out
+}
+
+// ---- quantifier re-indexing ------------------------------------------------------------------------
+// forall k. P(A[c + k]) is rewritten to forall k'. P'(A[k']) with k = k' - c when every array index that
+// mentions k has the shape c + k for one and the same c.  This is a change of bound variable (sound and
+// complete); it makes the quantifier instantiable by E-matching on A[k'] (offsets come from sub-slices).
+
+func mentions(t *Term, name string) bool {
+	if len(t.Args) == 0 {
+		return t.Op == name
+	}
+	for _, b := range t.Bound {
+		if b.Op == name {
+			return false
+		}
+	}
+	for _, a := range t.Args {
+		if mentions(a, name) {
+			return true
+		}
+	}
+	return false
+}
+
+func flattenSum(t *Term, out *[]*Term) {
+	if t.Op == "+" {
+		for _, a := range t.Args {
+			flattenSum(a, out)
+		}
+		return
+	}
+	*out = append(*out, t)
+}
+
+// splitIndex: idx = b + rest with rest free of b; ok=false otherwise.
+func splitIndex(idx *Term, b string) (rest *Term, ok bool) {
+	var parts []*Term
+	flattenSum(idx, &parts)
+	found := false
+	rest = Num(0)
+	for _, p := range parts {
+		if len(p.Args) == 0 && p.Op == b {
+			if found {
+				return nil, false
+			}
+			found = true
+			continue
+		}
+		if mentions(p, b) {
+			return nil, false
+		}
+		rest = Add(rest, p)
+	}
+	return rest, found
+}
+
+func collectIdx(t *Term, b string, out *[]*Term) {
+	if t.Op == "select" && mentions(t.Args[1], b) {
+		*out = append(*out, t.Args[1])
+	}
+	for _, a := range t.Args {
+		collectIdx(a, b, out)
+	}
+}
+
+func reindexBody(t *Term, b *Term, rest *Term) *Term {
+	if len(t.Args) == 0 {
+		if t.Op == b.Op {
+			return Sub(b, rest)
+		}
+		return t
+	}
+	if t.Op == "select" && mentions(t.Args[1], b.Op) {
+		if r, ok := splitIndex(t.Args[1], b.Op); ok && sameTerm(r, rest) {
+			return Select(reindexBody(t.Args[0], b, rest), b)
+		}
+	}
+	args := make([]*Term, len(t.Args))
+	for i, a := range t.Args {
+		args[i] = reindexBody(a, b, rest)
+	}
+	return rebuild(t, args, nil)
+}
+
+// reindexVariants returns equivalent bodies of a quantifier over `bound`, one per distinct offset c found in
+// array indices of the shape c + b (b bound): in variant c every such index is the bare variable.
+func reindexVariants(bound []*Term, body *Term) []*Term {
+	out := []*Term{body}
+	for _, b := range bound {
+		var idxs []*Term
+		collectIdx(body, b.Op, &idxs)
+		var rests []*Term
+		for _, ix := range idxs {
+			r, good := splitIndex(ix, b.Op)
+			if !good || (r.IsNum() && r.Num.Sign() == 0) {
+				continue
+			}
+			dup := false
+			for _, x := range rests {
+				if sameTerm(x, r) {
+					dup = true
+				}
+			}
+			if !dup && len(rests) < 3 {
+				rests = append(rests, r)
+			}
+		}
+		for _, r := range rests {
+			out = append(out, reindexBody(body, b, r))
+		}
+		if len(rests) > 0 {
+			break // one bound variable is re-indexed per quantifier
+		}
+	}
+	return out
+}
+
+// expandSmallRange: forall q. (c1 <= q && q < c2 [&& more]) => P  with constant bounds and at most 8 values
+// becomes the finite conjunction (and dually for exists): fewer quantifiers for the solvers, same meaning.
+func constBounds(guard *Term, b string) (lo, hi int64, rest []*Term, ok bool) {
+	var parts []*Term
+	if guard.Op == "and" {
+		parts = guard.Args
+	} else {
+		parts = []*Term{guard}
+	}
+	haveLo, haveHi := false, false
+	for _, p := range parts {
+		isB := func(t *Term) bool { return len(t.Args) == 0 && t.Op == b }
+		switch {
+		case p.Op == "<=" && p.Args[0].IsNum() && isB(p.Args[1]) && p.Args[0].Num.IsInt64() && !haveLo:
+			lo, haveLo = p.Args[0].Num.Int64(), true
+		case p.Op == "<" && isB(p.Args[0]) && p.Args[1].IsNum() && p.Args[1].Num.IsInt64() && !haveHi:
+			hi, haveHi = p.Args[1].Num.Int64(), true
+		case p.Op == "<=" && isB(p.Args[0]) && p.Args[1].IsNum() && p.Args[1].Num.IsInt64() && !haveHi:
+			hi, haveHi = p.Args[1].Num.Int64()+1, true
+		default:
+			rest = append(rest, p)
+		}
+	}
+	return lo, hi, rest, haveLo && haveHi
+}
+
+func expandSmallRange(bound []*Term, body *Term, universal bool) (*Term, bool) {
+	if len(bound) != 1 {
+		return nil, false
+	}
+	b := bound[0]
+	var guard, inner *Term
+	if universal {
+		if body.Op != "=>" {
+			return nil, false
+		}
+		guard, inner = body.Args[0], body.Args[1]
+	} else {
+		if body.Op != "and" {
+			return nil, false
+		}
+		guard, inner = body, True()
+	}
+	lo, hi, rest, ok := constBounds(guard, b.Op)
+	if !ok || hi-lo > 8 || hi-lo < 0 {
+		return nil, false
+	}
+	var parts []*Term
+	for v := lo; v < hi; v++ {
+		m := map[string]*Term{b.Op: Num(v)}
+		if universal {
+			parts = append(parts, Implies(And(rest...).Subst(m), inner.Subst(m)))
+		} else {
+			parts = append(parts, And(rest...).Subst(m))
+		}
+	}
+	if universal {
+		return And(parts...), true
+	}
+	return Or(parts...), true
 }
